@@ -15,7 +15,9 @@ RULE = ('request cases: every single injection point (20) x exception kind (plai
         'PredicateMismatch, plus "predicate false / permission denied") x exception-view configuration (mask of: view for '
         'Exception, view for HTTPException, default exceptionresponse view; each user view rendering or raising each kind) '
         'x route or traversal x callback-registration pattern, enumerated; single faults inside a subrequest; random '
-        'scenario trees (subrequests to depth 3, with and without tweens, up to 3 faults, random registrations). thorough '
+        'scenario trees (subrequests to depth 3, with and without tweens, up to 3 faults, random registrations); the same '
+        'single-fault sweep on apps whose event subscribers are registered only AFTER the router was built; 36 two-thread '
+        'interleavings (a fresh thread serves a request while another is inside its view; a test). thorough '
         'adds every PAIR of faults in one request and every (parent, subrequest) fault pair x use_tweens, and a 16-thread '
         'soak (a test: per-thread stacks independent, observations equal to the single-threaded ones). scope cases: the 15 '
         'analysed entry points x failure site. non-trivial = a request case in which a fault fires or a callback runs, or '
@@ -27,7 +29,8 @@ ASSUMPTIONS = [
     'part (a): a for loop may raise at each iteration; `except X` (X not BaseException) may or may not catch',
     'part (b): the default execution policy; exception views: any subset of {view for Exception, view for HTTPException, '
     'default exceptionresponse view}, without predicates; at most one subrequest per view, started from the view body; '
-    'components are the instrumented ones of harness/c13/app.py; thread independence is tested (soak), not proved',
+    'components are the instrumented ones of harness/c13/app.py; thread independence is tested (two-thread '
+    'interleavings in quick, 16-thread soak in thorough), not proved',
     'a finished callback that itself raises stops the remaining finished callbacks (documented behaviour): the callback '
     'clause of the property is only judged for scenarios without a raising finished callback',
     'callbacks may register callbacks of their own kind; each registration entry of a callback fires once (it names the '
@@ -242,6 +245,33 @@ def enumerate_single():
     return out
 
 
+def enumerate_late_subscribers():
+    """the router was built from a registry without any subscriber; the subscribers are added afterwards
+    (excview mask + 8): every single fault again, so NewResponse / the other events must still occur"""
+    out = []
+    for mask in (8, 9, 15):
+        for route in (0, 1):
+            out.append({'t': 'req', 'excview': mask, 'scn': scn(route, [], REG_PATTERNS[1])})
+            for f in single_faults():
+                out.append({'t': 'req', 'excview': mask, 'scn': scn(route, [f], REG_PATTERNS[1])})
+    return out
+
+
+def enumerate_interleavings():
+    """two fresh threads: A is inside its view while B (touching the thread-local manager for the first time)
+    serves a complete request; then A's view probes its frame again"""
+    out = []
+    a_scns = [scn(0), scn(1, [[12, 1, 0]], REG_PATTERNS[1]), scn(0, [[13, 2, 0]], REG_PATTERNS[1]),
+              scn(1, [], REG_PATTERNS[2])]
+    b_scns = [scn(0), scn(1, [[7, 1, 0]]), scn(0, [[12, 2, 0]], REG_PATTERNS[1])]
+    for mask in (0, 1, 7):
+        for a in a_scns:
+            for b in b_scns:
+                out.append({'t': 'interleave', 'a': {'t': 'req', 'excview': mask, 'scn': a},
+                            'b': {'t': 'req', 'excview': mask, 'scn': b}})
+    return out
+
+
 def enumerate_pairs():
     """thorough tier: every unordered pair of faults in one request x mask in {0,1,7} x route, and every
     (parent fault, subrequest fault) pair x use_tweens"""
@@ -299,7 +329,7 @@ def rand_scn(rng, depth):
 
 
 def generate(rng, tier, n):
-    fixed = enumerate_scopes() + enumerate_single()
+    fixed = enumerate_scopes() + enumerate_interleavings() + enumerate_single() + enumerate_late_subscribers()
     if tier == 'thorough':
         fixed.append({'t': 'soak', 'threads': 16, 'per_thread': 400, 'seed': 13})
     for c in fixed:
@@ -319,7 +349,7 @@ def generate(rng, tier, n):
                     k += 1
     m = max(0, n - len(fixed) - k)
     for _ in range(m):
-        yield {'t': 'req', 'excview': rng.choice([0, 1, 1, 2, 3, 4, 5, 6, 7, 7]), 'scn': rand_scn(rng, rng.choice([0, 1, 1, 2, 3]))}
+        yield {'t': 'req', 'excview': rng.choice([0, 1, 1, 2, 3, 4, 5, 6, 7, 7]) + rng.choice([0, 0, 8]), 'scn': rand_scn(rng, rng.choice([0, 1, 1, 2, 3]))}
 
 
 def _valid_scn(s, depth):
@@ -357,7 +387,9 @@ def valid(case):
             return k.isdigit() and int(k) < 2000 and (base == '' or base in SC.SITES[case['name']])
         if case.get('t') == 'soak':
             return case['threads'] == 16 and 0 < case['per_thread'] <= 2000
-        return case.get('t') == 'req' and case['excview'] in range(8) and _valid_scn(case['scn'], 0)
+        if case.get('t') == 'interleave':
+            return valid(case['a']) and valid(case['b']) and case['a']['t'] == 'req' and case['b']['t'] == 'req'
+        return case.get('t') == 'req' and case['excview'] in range(16) and _valid_scn(case['scn'], 0)
     except Exception:
         return False
 
@@ -393,7 +425,7 @@ def shrinks(case):
                 yield dict(s, sub=dict(s['sub'], tweens=0))
     for v in sub_variants(case['scn']):
         yield dict(case, scn=v)
-    for bit in (4, 2, 1):
+    for bit in (8, 4, 2, 1):
         if case['excview'] & bit:
             yield dict(case, excview=case['excview'] & ~bit)
 
@@ -404,7 +436,7 @@ _cache = {}
 
 def setup(tier):
     from harness.c13 import app as A
-    for m in range(8):
+    for m in range(16):
         A.get_app(m)
 
 
@@ -450,7 +482,51 @@ def soak(case):
     return [sum(r[0] for r in done), sum(r[1] for r in done), len(done)]
 
 
+def interleave(case):
+    """thread A enters its view, thread B (a fresh thread: first use of the manager) serves a whole request, A's view
+    then probes again; both observations must equal the single-threaded ones and both threads must end with an
+    empty stack.  -> [mismatches, stray frames, threads done]"""
+    import threading
+    from pyramid.threadlocal import manager
+    from harness.c13 import app as A
+    exp_a = A.run_request(case['a'], hook=lambda: None)
+    exp_b = A.run_request(case['b'])
+    a_in_view, b_done = threading.Event(), threading.Event()
+    res = {}
+
+    def hook():
+        a_in_view.set()
+        b_done.wait(10)
+
+    def run_a():
+        try:
+            got = A.run_request(case['a'], hook=hook)
+            res['a'] = (0 if got == exp_a else 1, 0 if len(manager.stack) == 0 else 1)
+        except BaseException:
+            res['a'] = (1, 1)
+        finally:
+            a_in_view.set()
+
+    def run_b():
+        try:
+            a_in_view.wait(10)
+            got = A.run_request(case['b'])
+            res['b'] = (0 if got == exp_b else 1, 0 if len(manager.stack) == 0 else 1)
+        except BaseException:
+            res['b'] = (1, 1)
+        finally:
+            b_done.set()
+    ta, tb = threading.Thread(target=run_a), threading.Thread(target=run_b)
+    ta.start()
+    tb.start()
+    ta.join(30)
+    tb.join(30)
+    return [sum(v[0] for v in res.values()), sum(v[1] for v in res.values()), len(res)]
+
+
 def _run(case):
+    if case['t'] == 'interleave':
+        return interleave(case)
     if case['t'] == 'scope':
         return SC.run_scope(case['name'], case['site'])
     if case['t'] == 'soak':
@@ -483,16 +559,18 @@ def to_wire(case):
         return [SC.SCOPES[case['name']][0], [] if obs is None else list(obs)]
     if case['t'] == 'soak':
         return [case['threads']]
+    if case['t'] == 'interleave':
+        return [2]
     ob = []
     if obs is not None and obs[1] >= 0:
         ob = [obs[1], [list(e) for e in obs[2]]]
-    return [case['excview'], _scn_wire(case['scn']), ob]
+    return [case['excview'] & 7, _scn_wire(case['scn']), ob]
 
 
 def from_wire(case, raw):
     if raw == [['bad']]:
         return {'model': ['MODEL-BAD'], 'spec': None}
-    if case['t'] == 'soak':
+    if case['t'] in ('soak', 'interleave'):
         return {'model': raw, 'spec': [1, 1]}
     if case['t'] == 'scope':
         paths, cls, jo = raw
@@ -513,6 +591,8 @@ def spec_holds(case, obs, spec):
     """the extracted judge (Model/C13.v judge / scope_spec), evaluated on the IMPLEMENTATION's observation"""
     if case['t'] == 'soak':
         return obs == [0, 0, case['threads']]
+    if case['t'] == 'interleave':
+        return obs == [0, 0, 2]
     if spec is None or not isinstance(spec, list) or len(spec) != 2:
         return None
     if spec[1] == -1:
@@ -547,7 +627,7 @@ def nontrivial(case, obs):
         return False
     if case['t'] == 'scope':
         return case['site'] != 'none'
-    if case['t'] == 'soak':
+    if case['t'] in ('soak', 'interleave'):
         return True
     return bool(_fired(case, obs)) or any(e[0] in (16, 18) for e in obs[2])
 
@@ -559,13 +639,16 @@ def kinds(case, obs):
         return ['scope:%s' % case['name'], 'scope-exit:%s' % ('raise' if obs[0] else 'return'),
                 'scope-path:%s:%s' % (case['name'], ''.join(str(x) for x in obs[:3])),
                 'scope-site:%s' % ('injected-at-opaque-call' if case['site'].startswith('inj:') else 'hand-written')]
+    if case['t'] == 'interleave':
+        return ['interleave:two-threads', 'interleave:%s' % ('ok' if obs == [0, 0, 2] else 'differs')]
     if case['t'] == 'soak':
         return ['soak:%d-threads-x-%d-requests mismatches=%s stray-frames=%s threads-done=%s'
                 % (case['threads'], case['per_thread'], obs[0], obs[1], obs[2])]
     from harness.c13.app import POINT_NAMES
     k = ['outcome:%s' % ('response-from-%s' % POINT_NAMES.get(obs[0][1], obs[0][1]) if obs[0][0] == 'resp'
                          else 'exception-kind-%s' % obs[0][1])]
-    k.append('excview-mask:%d' % case['excview'])
+    k.append('excview-mask:%d' % (case['excview'] & 7))
+    k.append('subscribers:%s' % ('added-after-the-app-was-built' if case['excview'] & 8 else 'before'))
     depth, s = 0, case['scn']
     while s['sub']:
         depth, s = depth + 1, s['sub']['scn']
@@ -598,6 +681,9 @@ def describe(case):
 
 def explain(item):
     c = item['case']
+    if c.get('t') == 'interleave':
+        return ('two fresh threads, A pauses inside its view while B serves a whole request: [observations differing from the '
+                'single-threaded run, threads ending with a non-empty stack, threads done]')
     if c.get('t') == 'soak':
         return 'soak: [observations differing from the single-threaded run, threads ending with a stray frame, threads done]'
     if c.get('t') == 'scope' and c['site'].startswith('inj:'):
